@@ -369,6 +369,22 @@ class TopoModel(Model):
                     marks.append((('node', 'n2'), ('service', sname)))
             for m in marks:
                 ev.append(('prune', m))
+        if exp and 'c08' in self.oracles:
+            # "undo through an older handle": a handle obtained BEFORE another handle of the same element made a change is
+            # then used to take that change back (every lookup builds a new handle, so this is ordinary use)
+            for s in tops[:2]:
+                for p in free[:1]:
+                    ev.append(('undo_old', 'connect', s, self._pref(p)))
+            if 's1' in tops and 's2' in tops:
+                ev.append(('undo_old', 'peer', 's1', 's2'))
+            for nn, i in self.ports():
+                if i.type == InterfaceType.DedicatedPort and not i.get_peers():
+                    ev.append(('undo_old', 'sub', (nn, i.name)))
+                    break
+            for n in sorted(names):
+                if nodes[n].type == NodeType.VM:
+                    ev.append(('undo_old', 'component', n))
+                    break
         if not exp:
             ev += self._substrate_events(raw, nodes, free)
         return ev
@@ -475,6 +491,35 @@ class TopoModel(Model):
             self.handles['service'] = s
         elif k == 'remove_service':
             t.remove_network_service(ev[1])
+        elif k == 'undo_old':
+            self._undo_stage = 0
+            what = ev[1]
+            if what == 'connect':
+                old, new = self.service(ev[2]), self.service(ev[2])
+                port = self.port(*ev[3])
+                new.connect_interface(port)
+                self._undo_stage = 1
+                old.disconnect_interface(self.port(*ev[3]))
+                self.handles['service'] = old
+            elif what == 'peer':
+                a_old, b_old = self.service(ev[2]), self.service(ev[3])
+                self.service(ev[2]).peer(self.service(ev[3]))
+                self._undo_stage = 1
+                a_old.unpeer(b_old)
+                self.handles['service'] = a_old
+                self.handles['service2'] = b_old
+            elif what == 'sub':
+                old, new = self.port(*ev[2]), self.port(*ev[2])
+                new.add_child_interface(name='subU', labels=Labels(vlan='300'))
+                self._undo_stage = 1
+                old.remove_child_interface(name='subU')
+                self.handles['port'] = old
+            elif what == 'component':
+                old, new = self.node(ev[2]), self.node(ev[2])
+                new.add_component(name='cU', model_type=ComponentModelType.SmartNIC_ConnectX_6)
+                self._undo_stage = 1
+                old.remove_component('cU')
+            self._undo_stage = 2
         elif k == 'peer':
             a, b = self.service(ev[1]), self.service(ev[2])
             a.peer(b)
@@ -558,6 +603,8 @@ class TopoModel(Model):
         return None
 
     def outcome_label(self, ev, outcome):
+        if ev[0] == 'undo_old':
+            return f'undo_old/{ev[1]}:{outcome[0]}@stage{getattr(self, "_undo_stage", 0)}'
         return f'{ev[0]}:{outcome[0]}'
 
 
@@ -890,6 +937,20 @@ def _port_id(pre: Raw, ref):
 def c08_check(model: TopoModel, pre: Raw, ev, outcome):
     v = []
     k = ev[0]
+    if k == 'undo_old':
+        stage = getattr(model, '_undo_stage', 0)
+        post = model.raw()
+        if stage == 2:
+            # the change was taken back through a handle that predates it: the model is what it was, and that handle agrees
+            # with a fresh lookup
+            if post.exact() != pre.exact():
+                left = sorted(f'{post.cls(x)}:{post.name(x)}' for x in set(post.nodes) - set(pre.nodes))
+                gone = sorted(f'{pre.cls(x)}:{pre.name(x)}' for x in set(pre.nodes) - set(post.nodes))
+                v.append((f'c08/undo-through-older-handle/{ev[1]}/model-differs',
+                          f'{ev}: both calls returned normally but the model is not what it was: left {left}, lost {gone}, '
+                          f'edges {len(post.exact()[1])} vs {len(pre.exact()[1])}'))
+            v += _handle_coherence(model, post, f'undo-through-older-handle/{ev[1]}', ev)
+        return v
     if k not in REMOVALS:
         return v
     verdict = c08_targets(pre, ev)
@@ -939,7 +1000,12 @@ def c08_check(model: TopoModel, pre: Raw, ev, outcome):
                 if qe[e] != want_edges[e]:
                     v.append((f'c08/{k}/changed-edge-properties', f'{ev}'))
                     break
-    # handle coherence
+    v += _handle_coherence(model, post, k, ev)
+    return v
+
+
+def _handle_coherence(model, post, k, ev):
+    v = []
     try:
         h = getattr(model, 'handles', {})
         for key in ('service', 'service2'):
@@ -1036,6 +1102,9 @@ def fail_events(model: TopoModel):
                     ev.append(('fail', 'connect-bad', s, why, b))
         if 's1' in tops and 's2' in tops:
             ev.append(('fail', 'peer-twice', 's1', 's2'))
+            for why in ('bad-labels', 'bad-labels-among-good', 'duplicate-id'):
+                ev.append(('fail', 'peer-bad-argument', 's1', 's2', why))
+                ev.append(('fail', 'peer-bad-argument', 's2', 's1', why))
         for nn, i in allp:
             if i.type == InterfaceType.DedicatedPort:
                 ev.append(('fail', 'sub-no-vlan', (nn, i.name)))
@@ -1064,6 +1133,13 @@ def fail_events(model: TopoModel):
             ev.append(('fail', 'link-duplicate-name', links[0], tuple(fp[:2])))
         if names:
             ev.append(('fail', 'sub-node-without-id'))
+        servers = [n for n in names if nodes[n].type == NodeType.Server]
+        for w in servers[:1]:
+            taken = nodes[w].node_id
+            # a NIC whose own id, service id or k-th interface id is already taken; missing / short static id lists
+            for why in ('own-id', 'service-id', 'interface-id-0', 'interface-id-1', 'same-interface-id-twice', 'no-interface-ids',
+                        'short-interface-ids', 'short-labels', 'bad-property'):
+                ev.append(('fail', 'sub-component', w, why, taken))
     return ev
 
 
@@ -1190,6 +1266,39 @@ def _do_fail(model: TopoModel, ev):
         t.add_link(name=ev[2], node_id='id-lx', ltype=LinkType.Patch, interfaces=[model.port(*r) for r in ev[3]])
     elif kind == 'sub-node-without-id':
         t.add_node(name='nx', site='S1', ntype=NodeType.Server)
+    elif kind == 'sub-component':
+        _, _, w, why, taken = ev
+        args = dict(name='nicx', node_id='id-nicx', model_type=ComponentModelType.SmartNIC_ConnectX_6,
+                    network_service_node_id='id-nicx-sf', interface_node_ids=['id-nicx-p1', 'id-nicx-p2'],
+                    interface_labels=[Labels(bdf='0000:42:00.0'), Labels(bdf='0000:42:00.1')])
+        if why == 'own-id':
+            args['node_id'] = taken
+        elif why == 'service-id':
+            args['network_service_node_id'] = taken
+        elif why == 'interface-id-0':
+            args['interface_node_ids'] = [taken, 'id-nicx-p2']
+        elif why == 'interface-id-1':
+            args['interface_node_ids'] = ['id-nicx-p1', taken]
+        elif why == 'same-interface-id-twice':
+            args['interface_node_ids'] = ['id-nicx-p1', 'id-nicx-p1']
+        elif why == 'no-interface-ids':
+            args['interface_node_ids'] = None
+        elif why == 'short-interface-ids':
+            args['interface_node_ids'] = ['id-nicx-p1']
+        elif why == 'short-labels':
+            args['interface_labels'] = [Labels(bdf='0000:42:00.0')]
+        elif why == 'bad-property':
+            args['boot_script'] = BAD
+        model.node(w).add_component(**args)
+    elif kind == 'peer-bad-argument':
+        a, b = model.service(ev[2]), model.service(ev[3])
+        why = ev[4]
+        if why == 'bad-labels':
+            a.peer(b, labels='asn=12345')
+        elif why == 'bad-labels-among-good':
+            a.peer(b, capacities=Capacities(bw=1), labels='asn=12345')
+        else:
+            a.peer(b, node_id=b.node_id)
     else:
         raise AssertionError(ev)
 
@@ -1270,6 +1379,10 @@ def _check(self, pre, ev, outcome):
             changed = sorted(x for x in set(pn) & set(qn) if pn[x] != qn[x])
             call = ev[1] if ev[0] == 'fail' else ev[0]
             detail = ev[2] if (ev[0] == 'fail' and ev[1] in ('service-kth-interface', 'mirror-bad-to-interface', 'connect-bad')) else ''
+            if ev[0] == 'fail' and ev[1] == 'sub-component':
+                detail = ev[3]
+            if ev[0] == 'fail' and ev[1] == 'peer-bad-argument':
+                detail = ev[4]
             v.append((f'c09/{call}' + (f'/{detail}' if detail else ''),
                       f'{ev} raised {outcome[1:]} but the model changed: left behind {left}, removed {gone}, '
                       f'properties changed on {changed}, edges {len(qe)} vs {len(pe)}'))
